@@ -150,6 +150,11 @@ def _positions(rng, nc):
     return [[float(10 * x), float(20 * y)] for x, y in rng.sample(cells, nc)]
 
 
-def load(params_path):
+def load(params_path, reopen=False):
+    """Open the dataset; with `reopen` a first model is opened and closed before (it leaves its
+    created files behind: spike_clusters.npy, whitening_mat_inv.npy), and the model returned is the
+    second one."""
     from phylib.io.model import load_model
+    if reopen:
+        load_model(params_path).close()
     return load_model(params_path)
